@@ -86,7 +86,7 @@ def run_hypothesis(mod, part, shard, nshards, tier, seed, open_sigs, st):
 
     total = max(1, int(part.examples[tier] * float(os.environ.get("VT_SCALE", "1"))))
     n = max(1, (total + nshards - 1) // nshards)
-    budget = part.budget_s[tier] * max(1.0, float(os.environ.get("VT_SCALE", "1")))
+    budget = part.budget_s[tier] * max(1.0, float(os.environ.get("VT_SCALE", "1"))) * float(os.environ.get("VT_BUDGET_SCALE", "1"))
     t_end = time.time() + budget
     phases = [Phase.generate]
     if part.shrink:
@@ -183,7 +183,7 @@ def run_fuzz(mod, part, shard, nshards, tier, seed, open_sigs, st, check_id):
     try:
         cmd = [sys.executable, "-m", "vt.fuzzshard", check_id, part.name, str(seed * 1000 + shard + 1), str(runs), outfile, os.path.join(d, "corpus")]
         try:
-            p = subprocess.run(cmd, capture_output=True, text=True, timeout=part.budget_s[tier] + 120)
+            p = subprocess.run(cmd, capture_output=True, text=True, timeout=part.budget_s[tier] * float(os.environ.get("VT_BUDGET_SCALE", "1")) + 120)
             tail = (p.stdout + p.stderr)[-1500:]
         except subprocess.TimeoutExpired:
             st.budget_exhausted = True
